@@ -13,7 +13,9 @@ import os, json, sqlite3, re, collections, shutil
 import vlib, enginelib
 from vlib import hx
 
-CPP_ONLY = ("need", "prior", "epoch", "deps", "deps-unavailable", "waitgraph")       # observations only a C++ client can make
+# what both kinds of client can observe (engine_driver prints more: need, prior, epoch, deps, waitgraph ... need C++-only calls)
+COMPARABLE = ("build", "restart", "valid", "create", "start", "provide", "avail", "complete", "cycle", "result", "dbrow", "dbepoch", "dberror",
+              "error", "attach-error", "leftover-pending", "LATE-CALLBACK", "fresh", "freshval")
 C_EXTRA = ("status", "raw")                                      # extra lines of capi_driver
 INEXPRESSIBLE = [
     "rule signatures (llb_rule_t has no signature: every rule has the null signature; scenarios use sig=0, no signature edits)",
@@ -195,7 +197,7 @@ class Pair:
         if only != "c":
             rc1, o1, e1, _, _ = enginelib.run_impl(self.drv["engine_driver"], lines, os.path.join(self.wd, "cpp"))
             res["cpp_all"] = o1
-            res["cpp"] = [l for l in o1 if l.split(" ")[0] not in CPP_ONLY]
+            res["cpp"] = [l for l in o1 if l.split(" ")[0] in COMPARABLE]
             if rc1 != 0:
                 res["errors"].append("engine_driver exit status %s: %s" % (rc1, e1[-400:]))
         if only != "cpp":
@@ -760,6 +762,7 @@ def replay(chk, rp):
     cov = collections.Counter()
     if not L:
         return run(chk)
+    chk.count(("replay", "\n".join(L)))
     if mode == "threads":
         run_threads(chk, pair, L, cov)
     elif mode.startswith("param-force"):
